@@ -1,9 +1,9 @@
 \* behaviour generation by TLC simulation: random deep behaviours of the closed model at the granularity the replay
-\* driver realises (reconciles without foreign steps, a failing call anywhere), finalize as the code has it
-CONSTANTS Pods = {"p1", "p2"}  Tol = {"p2"}
+\* driver realises (reconciles without foreign steps, a failing call anywhere), finalize as the code has it now (launch cache consulted)
+CONSTANTS Pods = {"p1", "p2", "p3"}  Tol = {"p2"}  Late = {"p2", "p3"}
   Starts = {"registered", "registered", "launched", "unpersisted", "fresh"}
   VaOwners = {"-", "p1", "p2", "orphan"}  TGPs <- BoolBoth  Instants <- BoolBoth
   MaxFaults = 3  MaxRestarts = 1  MaxLen = 34  MaxSpont = 1
-  Atomic = TRUE  FinalizeMode = "code"  Weak = ""
+  Atomic = TRUE  FinalizeMode = "cache"  Weak = ""
 SPECIFICATION Spec
 INVARIANTS GenPrint
